@@ -6,6 +6,7 @@ import (
 	"go/token"
 	"go/types"
 	"sort"
+	"strings"
 
 	"golang.org/x/tools/go/ssa"
 )
@@ -380,5 +381,167 @@ func ruleJ10(c *Ctx, rule string) {
 		r.Discharge(rule, key, c.P.pos(region.Instrs[0].Pos()), "the !!int arm parses integers only; out-of-range is an error")
 	} else {
 		r.Finding(rule, key, bad, "the !!int arm falls back to strconv.ParseFloat: an integer beyond 64 bits is emitted as the nearest float64 (12345678901234567890 becomes 12345678901234567000) instead of an error")
+	}
+}
+
+// ---- K5 (C16/C03/C04/C07): string keys are not parsed as numbers -----------------------
+
+// ruleK5: in getParsedKey the integer parse of the key text is reached only
+// when the key is not tagged !!str: a quoted "010" must stay the string "010"
+// in a path, or delete / merge look the entry up under 10.
+func ruleK5(c *Ctx, rule string) {
+	r := c.R
+	fn := c.libFunc("CandidateNode.getParsedKey")
+	if fn == nil {
+		r.Fatal("anchor missing: (*CandidateNode).getParsedKey")
+		return
+	}
+	key := "getParsedKey/string-keys-stay-strings"
+	n := 0
+	bad := ""
+	eachInstr(fn, func(ins ssa.Instruction) {
+		call, ok := ins.(*ssa.Call)
+		if !ok || call.Call.StaticCallee() == nil {
+			return
+		}
+		switch call.Call.StaticCallee().Name() {
+		case "parseInt", "parseInt64":
+		default:
+			if calleeName(&call.Call) != "strconv.Atoi" && calleeName(&call.Call) != "strconv.ParseInt" && calleeName(&call.Call) != "strconv.ParseFloat" {
+				return
+			}
+		}
+		n++
+		guarded := false
+		dominatingConds(call.Block(), func(cond ssa.Value, taken bool, at *ssa.BasicBlock) {
+			bo, ok := cond.(*ssa.BinOp)
+			if !ok || (bo.Op != token.EQL && bo.Op != token.NEQ) {
+				return
+			}
+			isStr := func(v ssa.Value) bool {
+				k, ok := v.(*ssa.Const)
+				return ok && k.Value != nil && k.Value.Kind() == constant.String && constant.StringVal(k.Value) == "!!str"
+			}
+			isTag := func(v ssa.Value) bool {
+				u, ok := v.(*ssa.UnOp)
+				if !ok {
+					return false
+				}
+				fa, ok := u.X.(*ssa.FieldAddr)
+				return ok && fieldName(fa) == "Tag"
+			}
+			if (isStr(bo.X) && isTag(bo.Y)) || (isStr(bo.Y) && isTag(bo.X)) {
+				if (bo.Op == token.EQL && !taken) || (bo.Op == token.NEQ && taken) {
+					guarded = true
+				}
+			}
+		})
+		if !guarded {
+			bad = c.P.pos(call.Pos())
+		}
+	})
+	switch {
+	case n == 0:
+		r.Undecided(rule, key, c.P.pos(fn.Pos()), "getParsedKey parses no number: shape not recognised")
+	case bad == "":
+		r.Discharge(rule, key, c.P.pos(fn.Pos()), "the number parse is reached only for keys not tagged !!str")
+	default:
+		r.Finding(rule, key, bad, "the key text is parsed as a number although the key may be tagged !!str: a quoted \"010\" or \"0x1F\" becomes 10 / 31 in the path, and delete, merge and path(...) then address the entry \"10\" / \"31\" instead")
+	}
+}
+
+// ---- O8 (C15): instants are compared with Equal, not == --------------------------------
+
+// ruleO8: no `==` / `!=` between two time.Time values: the struct comparison
+// also compares the location pointer and the monotonic reading, so two
+// spellings of the same instant are unequal and `<=` / `>=` lose reflexivity.
+func ruleO8(c *Ctx, rule string) {
+	r := c.R
+	r.Rule(rule, "time.Time values are never compared with == / !=", 1)
+	n := 0
+	for _, fn := range c.moduleFuncs() {
+		eachInstr(fn, func(ins ssa.Instruction) {
+			bo, ok := ins.(*ssa.BinOp)
+			if !ok || (bo.Op != token.EQL && bo.Op != token.NEQ) {
+				return
+			}
+			if types.TypeString(bo.X.Type(), nil) != "time.Time" {
+				return
+			}
+			n++
+			r.Finding(rule, funcKey(fn)+"/time==", c.P.pos(bo.Pos()), "two time.Time values are compared with "+bo.Op.String()+": the same instant written in two zones (or with a non-whole-hour offset) compares unequal, so `x <= x` can be false")
+		})
+	}
+	if n == 0 {
+		r.Discharge(rule, "module/no-time-equality", "-", "no == / != on time.Time in the module (Equal / Before / After are used)")
+	}
+}
+
+// ---- U8 (C02/C07): assignment changes the value, not where the node is -----------------
+
+// ruleU8: UpdateFrom / UpdateAttributesFrom (and the helpers they hand both
+// nodes to) store only value and presentation attributes of the target. The
+// fields that say where the node is or what precedes its document — Parent,
+// Key, IsMapKey, document, filename, fileIndex, LeadingContent,
+// EvaluateTogether, Line, Column — are never written by an assignment.
+func ruleU8(c *Ctx, rule string) {
+	r := c.R
+	forbidden := map[string]string{
+		"Parent": "position", "Key": "position", "IsMapKey": "position",
+		"document": "provenance", "filename": "provenance", "fileIndex": "provenance",
+		"LeadingContent": "document header", "EvaluateTogether": "evaluation mode",
+	}
+	for _, name := range []string{"CandidateNode.UpdateFrom", "CandidateNode.UpdateAttributesFrom"} {
+		root := c.libFunc(name)
+		if root == nil {
+			r.Fatal("anchor missing: %s", name)
+			continue
+		}
+		type target struct {
+			fn *ssa.Function
+			n  *ssa.Parameter
+		}
+		targets := []target{{root, root.Params[0]}}
+		eachInstr(root, func(ins ssa.Instruction) {
+			call, ok := ins.(*ssa.Call)
+			if !ok {
+				return
+			}
+			h := call.Call.StaticCallee()
+			if h == nil || h.Blocks == nil || h == root || !strings.HasPrefix(funcKey(h), "yqlib.") {
+				return
+			}
+			switch h.Name() {
+			case "AddChildren", "AddChild", "AddKeyValueChild", "SetParent", "UpdateAttributesFrom", "UpdateFrom":
+				return // the positioning primitives: they position CHILDREN, judged by K1/K2
+			}
+			for i, a := range call.Call.Args {
+				if a == ssa.Value(root.Params[0]) && i < len(h.Params) {
+					targets = append(targets, target{h, h.Params[i]})
+				}
+			}
+		})
+		bad := ""
+		for _, t := range targets {
+			eachInstr(t.fn, func(ins ssa.Instruction) {
+				st, ok := ins.(*ssa.Store)
+				if !ok {
+					return
+				}
+				fa, ok := st.Addr.(*ssa.FieldAddr)
+				if !ok || fa.X != ssa.Value(t.n) {
+					return
+				}
+				if what, isBad := forbidden[fieldName(fa)]; isBad {
+					bad = fmt.Sprintf("%s (%s) at %s", fieldName(fa), what, c.P.pos(st.Pos()))
+				}
+			})
+		}
+		key := strings.TrimPrefix(name, "CandidateNode.") + "/value-attributes-only"
+		if bad == "" {
+			r.Discharge(rule, key, c.P.pos(root.Pos()), "no store to a position / provenance / header field of the target")
+		} else {
+			r.Finding(rule, key, c.P.pos(root.Pos()), "the assignment primitive stores into the target's "+bad+": an update then moves the node, re-labels where it came from or replaces the header of its document, none of which it was asked to change")
+		}
 	}
 }
